@@ -94,7 +94,7 @@ func (w *WideQ) opts() Opts {
 
 var wideConstructs = []string{"filter", "case", "in-list", "between", "fn-args", "group", "group-having", "group-by-expr", "whole-agg", "join", "left-join", "parallel-join",
 	"hash-join", "cte", "cte-twice", "derived", "sel-sub", "sel-sub-root", "in-sub", "exists", "not-exists", "union", "union-all", "order-limit", "distinct", "nested-from", "star-sub", "like-is", "join-derived", "cte-join", "in-sub-root", "exists-outer", "having-agg",
-	"join-on-fn", "join-on-fn", "join-unaliased", "join-unaliased", "derived-cte", "join-derived-cte", "in-sub-cte", "sel-sub-cte", "exists-cte", "cte-union", "cte-nested", "selector-item", "selector-item"}
+	"join-on-fn", "join-on-fn", "join-unaliased", "join-unaliased", "derived-cte", "join-derived-cte", "in-sub-cte", "sel-sub-cte", "exists-cte", "cte-union", "cte-nested", "selector-item", "selector-item", "fuse-item"}
 
 func genWide(t *rapid.T, only []string) *WideQ {
 	doc, sc := genC07Doc(t)
@@ -149,7 +149,7 @@ func genWideOn(t *rapid.T, doc map[string]any, sc *c07Schema, only []string) *Wi
 		w.Tpl = fmt.Sprintf("SELECT COUNT(*) AS n, MIN(%s) AS mn FROM {T}%s GROUP BY {F@group-by-expression:%s}", v, optWhere("w", ""), k)
 		w.Unordered = true
 	case "whole-agg":
-		w.Tpl = fmt.Sprintf("SELECT COUNT(*) AS n, SUM(%s) AS sv, AVG(%s) AS av FROM {T}%s", v, k, optWhere("w", ""))
+		w.Tpl = fmt.Sprintf("SELECT COUNT(*) AS n, SUM({F@whole-aggregate-argument:%s}) AS sv, AVG(%s) AS av FROM {T}%s", v, k, optWhere("w", ""))
 	case "join", "left-join", "parallel-join", "hash-join":
 		kw := map[string][]string{"join": {"JOIN", "INNER JOIN", "STRAIGHT_JOIN"}, "left-join": {"LEFT JOIN", "RIGHT JOIN", "LEFT OUTER JOIN"},
 			"parallel-join": {"PARALLEL JOIN", "PARALLEL LEFT JOIN", "PARALLEL HASH_JOIN"}, "hash-join": {"HASH_JOIN", "LEFT HASH_JOIN", "RIGHT HASH_JOIN"}}[w.Construct]
@@ -280,6 +280,21 @@ func genWideOn(t *rapid.T, doc map[string]any, sc *c07Schema, only []string) *Wi
 		if rapid.Bool().Draw(t, "where") {
 			w.Tpl += fmt.Sprintf(" WHERE FIRST(%s) = %s", sel("s3"), rapid.SampledFrom([]string{"'a0'", "'a1'", "'b0'"}).Draw(t, "first"))
 		}
+	case "fuse-item":
+		// FUSE spreads the keys of an object of the document over the output row, in any position of the select list
+		rows, _ := doc["t"].([]any)
+		for r, row := range rows {
+			if rm, ok := row.(map[string]any); ok {
+				rm["o"] = map[string]any{"u": float64(r), "w": rapid.SampledFrom([]string{"x", "y"}).Draw(t, fmt.Sprintf("o%d", r))}
+			}
+		}
+		fuse := rapid.SampledFrom([]string{"FUSE(o)", "FUSE(o)", "FUSE(FIRST(" + items + "))", "FUSE((SELECT " + p + " FROM " + items + " LIMIT 1))"}).Draw(t, "fuse")
+		its := []string{fuse, fmt.Sprintf("{F@select-item:%s} AS a1", k), s}
+		if rapid.Bool().Draw(t, "fusestar") {
+			its = append(its, "*")
+		}
+		perm := rapid.Permutation(its).Draw(t, "fuseorder")
+		w.Tpl = "SELECT " + strings.Join(perm, ", ") + " FROM {T}" + optWhere("w", "")
 	case "like-is":
 		w.Tpl = fmt.Sprintf("SELECT %s, %s FROM {T} WHERE {F@like-operand:%s} LIKE %s OR {F@is-operand:%s} IS NULL OR %s IS NOT NULL", k, s, s, sq.StrLit(rapid.SampledFrom([]string{"a%", "%b", "_", "%"}).Draw(t, "pat")), "nokey", v)
 	}
